@@ -103,6 +103,25 @@ mod verif_probe_store_c09 {
                     Err(e) => failures.push(format!("{}: merge_owned(remove={}) failed: {}", ctx, remove, e)),
                 }
             }
+            // ---- a successful merge with history enabled appends the source's history once, also when the requested class is held by the destination only
+            {
+                let mut sh: S = TrackStore::new(PMetric::default(), PAttrs::default(), NoopNotifier, shards);
+                let mut d = sh.new_track(10).observation((2, Some(1.0), None, Some(PUpd))).build().unwrap(); d.merge_history = vec![10];
+                sh.add_track(d).unwrap();
+                let mut src = sh.new_track(11).observation((5, Some(2.0), None, Some(PUpd))).build().unwrap(); src.merge_history = vec![11, 12];
+                match sh.merge_external(10, &src, Some(&[2, 7]), true) {
+                    Ok(()) => { let h = peek(&sh, 10).map(|v| v.4); if h != Some(vec![10, 11, 12]) { failures.push(format!("{}: merge_external(classes [2,7] - class 2 held by the destination only -, history on) left the merge history {:?}, expected [10, 11, 12]", ctx, h)); } }
+                    Err(e) => failures.push(format!("{}: merge_external with a destination-only class failed: {}", ctx, e)),
+                }
+                let mut d2 = sh.new_track(20).observation((2, Some(1.0), None, Some(PUpd))).build().unwrap(); d2.merge_history = vec![20];
+                sh.add_track(d2).unwrap();
+                let mut s2 = sh.new_track(21).observation((5, Some(2.0), None, Some(PUpd))).build().unwrap(); s2.merge_history = vec![21];
+                sh.add_track(s2).unwrap();
+                match sh.merge_owned(20, 21, Some(&[2]), true, true) {
+                    Ok(_) => { let h = peek(&sh, 20).map(|v| v.4); if h != Some(vec![20, 21]) { failures.push(format!("{}: merge_owned(classes [2] held by the destination only, history on) left the merge history {:?}, expected [20, 21]", ctx, h)); } }
+                    Err(e) => failures.push(format!("{}: merge_owned with a destination-only class failed: {}", ctx, e)),
+                }
+            }
             // ---- ids with bits above bit 31: found in shard id % shards, and merges reach them
             {
                 let mut sw: S = TrackStore::new(PMetric::default(), PAttrs::default(), NoopNotifier, shards);
